@@ -339,6 +339,7 @@ where
 {
     let enc = v.to_string();
     st.note(name, &enc);
+    crate::hook::crumb(name, &enc);
     match crate::hook::quiet_catch(|| enc.parse::<T>()) {
         Err(p) => st.fail(name, format!("parse of its own text panicked ({}): {}", crate::sched::panic_message(&*p), enc)),
         Ok(Err(e)) => st.fail(name, format!("its own text does not parse ({}): {}", e, enc)),
@@ -361,6 +362,7 @@ pub fn rt_json<T: Serialize + DeserializeOwned>(name: &str, v: &T, repr: impl Fn
         }
     };
     st.note(name, &enc);
+    crate::hook::crumb(name, &enc);
     match crate::hook::quiet_catch(|| serde_json::from_str::<T>(&enc)) {
         Err(p) => {
             st.fail(name, format!("deserialize of its own JSON panicked ({}): {}", crate::sched::panic_message(&*p), enc));
@@ -521,6 +523,17 @@ pub fn json_batch(rng: &mut Rng, grid: bool, n_random: usize, st: &mut RtStats) 
             lying.visible_quantity = u64v(rng);
             lying.order_count = u64v(rng) as usize;
             rt_json("PriceLevelSnapshot", &lying, snapshot_repr_full, st);
+            // a hand-assembled snapshot whose order sequence is not the listing order
+            let mut shuffled = s.clone();
+            rng.shuffle(&mut shuffled.orders);
+            shuffled.orders.reverse();
+            rt_json("PriceLevelSnapshot(shuffled)", &shuffled, snapshot_repr_full, st);
+            let pk = PriceLevelSnapshotPackage {
+                version: 1,
+                snapshot: shuffled.clone(),
+                checksum: "00".repeat(32),
+            };
+            rt_json("PriceLevelSnapshotPackage(shuffled)", &pk, |p| format!("v{} {} {}", p.version, p.checksum, snapshot_repr_full(&p.snapshot)), st);
             match l.snapshot_package() {
                 Ok(pkg) => {
                     let back = rt_json("PriceLevelSnapshotPackage", &pkg, |p| format!("v{} {} {}", p.version, p.checksum, snapshot_repr_full(&p.snapshot)), st);
